@@ -256,6 +256,15 @@ int main(int argc, char **argv) {
         if(mode != 1) { t.eot(0); tr.push_back(t.d); }
         Bytes b = gm::smf(mode == 1 ? 1 : 0, 96, tr); o.sample = std::to_string(k) + " device name(s), " + (mode == 0 ? "one track" : mode == 1 ? "one track per device" : "each name twice"); run_case(b, o); uint64_t tg = 0; (void)tg; };
       fams.push_back(F); }
+    { // tick schedules against a zero-time stack loop: whatever step the caller feeds, Tick() must come back (its guard against zero-delay storms has to count every turn of its loop)
+      static const double GR[] = {0.01, 0.001, 0.1}; static const int GAP[] = {1, 10, 96};
+      en::Family F; F.name = "zero_time_loop_tick_steps"; F.count = 3 * 3 * 2 * 101; F.chunk = 4; F.budget_s = 10; F.describe = "SMF {noteOn, +96 ticks: tempo 0 and 'loopstart=0', +{1,10,96} ticks: 'loopend=0'} (a stack loop that takes no song time, repeated for ever) with looping {on, off}: opn2_tickEvents(0, g) followed by opn2_tickEvents(x, g) for every x = 0.4500 .. 0.5500 in steps of 0.001 and g in {0.01, 0.001, 0.1}, then 50 more ticks and the canonical follow-ups";
+      F.run = [](uint64_t i, en::CaseOut &o) { uint64_t r = i; int xi = (int)(r % 101); r /= 101; bool loop = r % 2; r /= 2; double g = GR[r % 3]; r /= 3; int gap = GAP[r % 3];
+        gm::Track t; t.ev(0, {0x90, 60, 100}); t.tempo(96, 0); t.meta(0, 0x06, "loopstart=0"); t.meta((uint32_t)gap, 0x06, "loopend=0"); t.ev(96, {0x80, 60, 0}); t.eot(0); Bytes b = gm::smf(0, 96, {t.d});
+        o.input_hex = vu::hex(b.data(), b.size()); Loaded L; load(L, b, o); if(o.bad) return; OPN2_MIDIPlayer *d = L.I.dev; opn2_setLoopEnabled(d, loop ? 1 : 0);
+        double x = 0.45 + 0.001 * xi; opn2_tickEvents(d, 0.0, g); opn2_tickEvents(d, x, g); for(int k = 0; k < 50; k++) opn2_tickEvents(d, g, g);
+        uint64_t tags = 0; for(int f : CANON) followup(d, f, tags); o.tags |= tags; char w[120]; snprintf(w, sizeof w, "loop %d, gap %d ticks, granularity %g, second tick %.4f s", (int)loop, gap, g, x); if(i % 131 == 0) o.sample = w; };
+      fams.push_back(F); }
     { en::Family F; F.name = "followups_depth2"; F.count = (uint64_t)g_seeds.size() * FU_COUNT * FU_COUNT * 4; F.chunk = 16; F.budget_s = 60; F.describe = "every ordered pair of follow-up calls (19 x 19) on every freshly loaded seed, with song pre-selection {none, -1, 1, 99} before loading";
       F.run = [](uint64_t i, en::CaseOut &o) { size_t s = (size_t)(i % g_seeds.size()); int f1 = (int)((i / g_seeds.size()) % FU_COUNT), f2 = (int)((i / g_seeds.size() / FU_COUNT) % FU_COUNT); int ps = (int)(i / g_seeds.size() / FU_COUNT / FU_COUNT);
         static const int PS[] = {-2, -1, 1, 99}; if(i % 1201 == 0) o.sample = g_seeds[s].first + ": preselect " + std::to_string(PS[ps]) + "; " + FU_NAME[f1] + "; " + FU_NAME[f2];
